@@ -5,6 +5,7 @@
      <id> SO <hex>                           scan_objects, then Scan.text_ordered on the values in the order
                                              of the text: "sorted" when every dictionary's keys appear in
                                              the model's SortedKeys order, else "unsorted" and the values
+     <id> FA <k> <value>*k                   format_checked under the current limits: "accept" / "refuse"
      <id> FO <mask> <k> <value>*k            format_opt (mask = OutputOptions bits) -> hex of the text
      <id> PS <hex> / <id> PN <hex>           parse_string / parse_name
      <id> FS <p> <hex> / <id> FN <hex>       fmt_string / fmt_name -> hex
@@ -133,6 +134,11 @@ let () =
     | id :: "F" :: p :: k :: rest ->
       let (vs, _) = parse_values (int_of_string k) rest in
       Printf.printf "%s %s\n" id (hex_of_bytes (Format.format (p = "1") vs))
+    | id :: "FA" :: k :: rest ->
+      let (vs, _) = parse_values (int_of_string k) rest in
+      (match Wf.format_checked !limits false vs with
+       | Res.Ok _ -> Printf.printf "%s accept\n" id
+       | Res.Err _ -> Printf.printf "%s refuse\n" id)
     | id :: "FO" :: mask :: k :: rest ->
       let (vs, _) = parse_values (int_of_string k) rest in
       Printf.printf "%s %s\n" id (hex_of_bytes (Format.format_opt (z_of_string mask) vs))
